@@ -20,7 +20,6 @@ import (
 	"bytes"
 	"fmt"
 	"go/format"
-	"path"
 	"path/filepath"
 
 	"github.com/cloudwego/thriftgo/generator/backend"
@@ -130,7 +129,7 @@ func (g *FastGoBackend) GenerateOne(ast *parser.Thrift) (*plugin.Generated, erro
 
 	// Headers:
 	// thriftgo version and package name
-	packageName := path.Base(golang.GetImportPath(g.utils, ast))
+	packageName := scope.FilePackage() // the package clause the go backend writes for the same directory
 	fmt.Fprintf(c, "%s\npackage %s\n\n", fixedFileHeader, packageName)
 
 	// Imports
